@@ -1,9 +1,103 @@
-/- C17 — bitemporal store (work in progress) -/
+/-
+  C17 — bitemporal store: reading as of T sees exactly what had been published by T.
+  Property theorems only (helper lemmas: PygProofs/Lemmas/BitempLemmas.lean).
+
+  `history log` is the store after `bi_merge`-ing the versions of `log` one by one from `None`;
+  `specRead log T` is the fold of the FULL publication log: per date, the publications stamped `≤ T` in
+  merge order, a non-NaN value overriding, a NaN changing nothing.
+-/
 import PygModel.Bitemp
+import PygProofs.Lemmas.BitempLemmas
 
 namespace Pyg.Props.C17
 open Pyg Pyg.Bitemp
 
-theorem history_nil : history [] = Option.none := rfl
+/-- a publication history the property speaks about: non-empty, every version a proper series,
+    merged in non-decreasing stamp order -/
+structure Ordered (log : List Version) : Prop where
+  ne : log ≠ []
+  wf : ∀ v ∈ log, v.ts.Sorted
+  stamps : log.Pairwise (fun a b => a.stamp ≤ b.stamp)
+
+/-- **refinement**: the compressed store answers every as-of read exactly as the full publication log
+    would: latest value stamped `≤ T`, merge order breaking ties, NaN never overriding, and a row only
+    for dates published by `T`. -/
+theorem read_spec (log : List Version) (h : Ordered log) (T : Option Int) :
+    ∃ st, history log = some st ∧ biRead st T (-1) = specRead log T := by
+  obtain ⟨st, hst, hg, he, _⟩ := history_inv log h.ne h.wf h.stamps
+  exact ⟨st, hst, by rw [biRead_last st hg, specRead_eq, specRows_congr he]⟩
+
+example : Ordered [⟨10, [(1, some 5), (2, none)]⟩, ⟨10, [(1, some 6)]⟩, ⟨12, [(2, some 7), (3, none)]⟩] :=
+  ⟨by simp, by decide, by decide⟩
+
+/-- the dates an as-of read returns are exactly the dates with a publication stamped `≤ T`:
+    no row for dates first published after `T` -/
+theorem read_dates (log : List Version) (h : Ordered log) (T : Int) (st : Store) (hst : history log = some st)
+    (d : Int) :
+    d ∈ (biRead st (some T) (-1)).index ↔ ∃ v ∈ log, v.stamp ≤ T ∧ d ∈ v.ts.index := by
+  obtain ⟨st', hst', hr⟩ := read_spec log h (some T)
+  rw [hst] at hst'; cases hst'
+  rw [hr]
+  simp only [specRead, TS.index, List.map_map, List.mem_map, mem_dates, List.mem_filter, logRows,
+    List.mem_flatMap, Bi, decide_eq_true_eq, Function.comp]
+  constructor
+  · rintro ⟨_, ⟨r, ⟨⟨v, hv, p, hp, rfl⟩, hT⟩, rfl⟩, rfl⟩
+    exact ⟨v, hv, hT, p, hp, rfl⟩
+  · rintro ⟨v, hv, hT, p, hp, rfl⟩
+    exact ⟨p.1, ⟨⟨p.1, v.stamp, p.2⟩, ⟨⟨v, hv, p, hp, rfl⟩, hT⟩, rfl⟩, rfl⟩
+
+/-- **no look-ahead**: versions stamped later than `T` never change an as-of-`T` read -/
+theorem no_lookahead (log later : List Version) (h : Ordered (log ++ later)) (hl : log ≠ []) (T : Int)
+    (hT : ∀ v ∈ later, T < v.stamp) (st st' : Store)
+    (hst : history log = some st) (hst' : history (log ++ later) = some st') :
+    biRead st' (some T) (-1) = biRead st (some T) (-1) := by
+  have h0 : Ordered log :=
+    ⟨hl, fun v hv => h.wf v (List.mem_append_left _ hv), (List.pairwise_append.mp h.stamps).1⟩
+  obtain ⟨s1, e1, r1⟩ := read_spec log h0 (some T)
+  obtain ⟨s2, e2, r2⟩ := read_spec _ h (some T)
+  rw [hst] at e1; cases e1
+  rw [hst'] at e2; cases e2
+  rw [r1, r2]
+  have : (logRows later).filter (fun r => decide (r.stamp ≤ T)) = [] := by
+    rw [List.filter_eq_nil_iff]
+    intro r hr
+    simp only [logRows, List.mem_flatMap, Bi, List.mem_map] at hr
+    obtain ⟨v, hv, _, _, rfl⟩ := hr
+    have := hT v hv
+    simp only [decide_eq_true_eq]; omega
+  simp only [specRead, logRows_append, List.filter_append, this, List.append_nil]
+
+/-- two logs that agree on what was published by `T` are read alike as of `T` -/
+theorem no_lookahead_logs (log₁ log₂ : List Version) (h₁ : Ordered log₁) (h₂ : Ordered log₂) (T : Int)
+    (hT : (logRows log₁).filter (fun r => decide (r.stamp ≤ T)) = (logRows log₂).filter (fun r => decide (r.stamp ≤ T)))
+    (st₁ st₂ : Store) (e₁ : history log₁ = some st₁) (e₂ : history log₂ = some st₂) :
+    biRead st₁ (some T) (-1) = biRead st₂ (some T) (-1) := by
+  obtain ⟨s1, e1, r1⟩ := read_spec log₁ h₁ (some T)
+  obtain ⟨s2, e2, r2⟩ := read_spec log₂ h₂ (some T)
+  rw [e₁] at e1; cases e1
+  rw [e₂] at e2; cases e2
+  rw [r1, r2]
+  simp only [specRead, hT]
+
+/-- the store never holds anything that was not published -/
+theorem store_rows_published (log : List Version) (h : Ordered log) (st : Store) (hst : history log = some st)
+    (r : Row) (hr : r ∈ st) : ∃ v ∈ log, r.stamp = v.stamp ∧ (r.date, r.val) ∈ v.ts := by
+  obtain ⟨st', hst', _, _, hm⟩ := history_inv log h.ne h.wf h.stamps
+  rw [hst] at hst'; cases hst'
+  have := hm r hr
+  simp only [logRows, List.mem_flatMap, Bi, List.mem_map] at this
+  obtain ⟨v, hv, p, hp, rfl⟩ := this
+  exact ⟨v, hv, rfl, hp⟩
+
+/-! `lastVal` (the fold used by `specRead`) is determined by three equations: nothing published gives NaN,
+    a later non-NaN publication overrides, a later NaN publication changes nothing. -/
+
+theorem lastVal_nil : lastVal [] = Option.none := rfl
+
+theorem lastVal_override (rows : Store) (r : Row) (x : Int) (h : r.val = some x) :
+    lastVal (rows ++ [r]) = some x := by rw [lastVal_snoc, h]; rfl
+
+theorem lastVal_nan_keeps (rows : Store) (r : Row) (h : r.val = Option.none) :
+    lastVal (rows ++ [r]) = lastVal rows := by rw [lastVal_snoc, h]; rfl
 
 end Pyg.Props.C17
